@@ -37,6 +37,25 @@ def simple(ctx):
     return ctx.chk.merge([ctx.harness()])
 
 
+def c26(ctx):
+    """Release profile always; the thorough tier adds the quick workload on a release+debug-assertions
+    build (the P-DATA writers contain debug_assert!s, so the two verdicts can differ)."""
+    legs = [ctx.harness()]
+    if ctx.tier == "thorough" and not ctx.replay:
+        ctx.chk.build(profile="release-dbg")
+        binary = os.path.join(ctx.chk.TARGET, "release-dbg", "dicomverif")
+        dbg = ctx.chk.harness(ctx.prop, "quick", ctx.seed, [], out=ctx.work, timeout=3000,
+                              result="release-dbg.json", binary=binary)
+        dbg["counters"] = {"release_dbg_" + k: v for k, v in dbg.get("counters", {}).items()}
+        for v in dbg.get("violations", []):
+            v["what"] = "[release+debug-assertions build] " + v["what"]
+        dbg["rule"] = "the quick workload repeated on a release build with debug assertions and overflow checks"
+        legs.append(dbg)
+    return ctx.chk.merge(legs)
+
+
 PROPS = {
     "C01": {"run": simple, "level": "exploration"},
+    "C26": {"run": c26, "level": "fault_enumeration",
+            "assumptions": ["scaled-down writers (M < 1018) are reachable only through the cfg(dicom_rs_verif) constructor; every scaled-down witness is re-executed at M = 1018 before it counts"]},
 }
